@@ -249,6 +249,9 @@ def history(rng, ncalls=None, allow_error=True):
             t.append(rng.choice(["USE solution 777\nEND\n", "SOLUTION 900\n pH 7\n Xx 1\nEND\n",
                                  "EQUILIBRIUM_PHASES 1\n NoSuchPhase 0 1\nUSE solution %d\nEND\n" % sols[0]]))
         for _ in range(rng.choice([0, 0, 1, 1, 2])):
+            if defined and rng.random() < 0.15:
+                # USER_PUNCH (re)defined in a later simulation: the table of that number already holds rows of this call
+                t.append(user_punch(rng, rng.choice(defined)))
             t.append(_react(rng, sols))
             if rng.random() < 0.1:
                 t.append("PRINT\n -selected_output %s\n" % rng.choice(["true", "false"]))
